@@ -183,7 +183,7 @@ class C07(Prop):
         import asyncio
 
         from harness.props import _recov
-        from streamflow.workflow.token import TerminationToken
+        from streamflow.workflow.token import IterationTerminationToken, TerminationToken
 
         holder = {}
 
@@ -209,7 +209,7 @@ class C07(Prop):
                             po = wf.ports[pn]
                             main.setdefault(pn, {"kind": kind, "step": st.name, "ids": []})
                             main[pn]["ids"] = [[t.tag, t.persistent_id] for t in po.token_list
-                                               if not isinstance(t, TerminationToken)]
+                                               if not isinstance(t, (TerminationToken, IterationTerminationToken))]   # control tokens are never persisted
                     holder["main"] = main
                 finally:
                     await orig()
@@ -304,7 +304,8 @@ class C07(Prop):
                     return ("not-persisted", f"token {tag} on port {pn} of {d['step']} is not persisted (id {tid})")
                 if d["kind"] in ("ExecuteStep", "TransferStep", "ScheduleStep", "InputInjectorStep") and not deps.get(tid):
                     return ("no-dependees", f"token {tid} ({tag}) emitted by {d['step']} has no recorded dependee")
-        for b, das in deps.items():
+        # (in a loop iteration k+1 is legitimately computed from iteration k, a sibling tag: clause not applied there)
+        for b, das in (deps.items() if c["shape"]["kind"] != "loop" else ()):
             for a in das:
                 if not related(rows[a][2], rows[b][2]):
                     return ("tag-unrelated", f"token {b} (tag {rows[b][2]}) is linked to token {a} of tag {rows[a][2]}")
